@@ -13,16 +13,16 @@
 (* call in an equal environment.  Checked on every generated case:                           *)
 (*   AstUnchanged  after every segment no literal cell differs from what was parsed;         *)
 (*   Rerun         two segments of one group give equal output, outcome and value.           *)
-(* RCases whose literals are marked "mut" model the defect class (a literal leaking out       *)
+(* Cases whose literals are marked "mut" model the defect class (a literal leaking out       *)
 (* mutable); the sanity run demands that TLC reports both properties broken on them.         *)
 EXTENDS ChaiCore
 
-RCases == ndJsonDeserialize(IOEnv.IN)
+RCases(x) == ndJsonDeserialize(IOEnv.IN)
 View(r) == [out |-> r.out, oc |-> r.oc, v |-> r.v]
 Rerun(c, rs) == \A i, j \in 1..Len(rs) : (c.segs[i].g # 0 /\ c.segs[i].g = c.segs[j].g) => View(rs[i]) = View(rs[j])
 AstOk(rs) == \A i \in 1..Len(rs) : rs[i].astok
 Decide(c) == LET rs == RunSegs(c.segs, 1, M0, <<>>) IN
              [id |-> c.id, segs |-> [i \in 1..Len(rs) |-> View(rs[i])], rerun |-> Rerun(c, rs), astok |-> AstOk(rs),
               fuel |-> \E i \in 1..Len(rs) : rs[i].oc = "fuel"]
-ExportReeval == ndJsonSerialize(IOEnv.OUT, [i \in 1..Len(RCases) |-> Decide(RCases[i])])
+ExportReeval(x) == LET cs == RCases(x) IN ndJsonSerialize(IOEnv.OUT, [i \in 1..Len(cs) |-> Decide(cs[i])])
 =============================================================================
